@@ -8,6 +8,7 @@ import shutil
 from .. import tlc
 from ..core import MachineryError
 from . import c05
+from .. import looptrace
 
 
 def load(path):
@@ -72,6 +73,7 @@ def stage(ck, pid, thorough):
                 flagged[t[1]] = byid[t[1]]
         records = []
 
+    every, step_recs = (7 if thorough else 3), []
     for n in names:
         decl, o = decls[tuple(n["sh"])], opts[tuple(sorted(n["st"]))]
         try:
@@ -91,10 +93,33 @@ def stage(ck, pid, thorough):
                 runs["dfs" if dfs else "ffs"] = r
             ck.keys.add("U|%s|%s|%s|%s" % ("+".join(n["sh"]), ",".join(n["st"]), runs["ffs"]["kind"], runs["dfs"]["kind"]))
             records.append({"id": "u%d" % k, "sh": n["sh"], "st": n["st"], "x": x, "ffs": runs["ffs"], "dfs": runs["dfs"]})
+            if k % every == 0:
+                # statement-level trace of the same case (collecting run): one snapshot per visit of a loop head
+                from utype import Options
+                for dfs in (False, True):
+                    cls, okw = built[dfs]
+                    steps = looptrace.observe_steps(lambda: cls.__from__(dict(data), options=Options(**dict(okw, collect_errors=True))), c05.val, c05.kind_of)
+                    if steps:
+                        step_recs.append({"id": "ls%d-%s" % (k, "d" if dfs else "f"), "sh": n["sh"], "st": n["st"], "x": x, "steps": steps})
         if len(records) >= CHUNK:
             flush()
     flush()
     ck.count("universe_cases_replayed_into_code", k)
+    # trace validation proper: DataLoops replayed action by action against the snapshots (Trace_LoopSteps)
+    sres = tlc.judge("Trace_LoopSteps", "Trace_LoopSteps.cfg", step_recs, workers=16)
+    nsnap = sum(len(r["steps"]) for r in step_recs)
+    if sres.distinct != nsnap:
+        raise MachineryError("trace acceptance (loop steps): TLC visited %d states, expected %d" % (sres.distinct, nsnap))
+    ck.states += sres.distinct
+    ck.transitions += sres.generated
+    ck.count("loop_snapshots_validated_against_DataLoops_actions", nsnap)
+    sdv = sres.tagged("DIV")
+    if sdv:
+        ck.count("loop_step_divergences", len(sdv))
+        byid = {r["id"]: r for r in step_recs}
+        for t in sdv[:5]:
+            r = byid[t[1]]
+            ck.note("divergence at step %s of %s: DataLoops differs from the code on %s %s input %s" % (t[3], t[2], r["sh"], r["st"], [(e["k"]["s"], e["v"]["n"] or e["v"]["s"]) for e in r["x"]]))
     return merged, flagged, decls, opts
 
 
